@@ -307,7 +307,10 @@ def is_minimal_m_separator(
     if not z <= r:
         raise nx.NetworkXError(f"Separating set {z} should be no larger than maximum set {r}")
 
-    if z - _anterior(G, {x, y}.union(i)) != set() or not z <= r:
+    if (
+        z - _anterior(G, {x, y}.union(i), directed_edge_name, undirected_edge_name) != set()
+        or not z <= r
+    ):
         return False
     if not m_separated(
         G, {x}, {y}, z, directed_edge_name, bidirected_edge_name, undirected_edge_name
@@ -318,7 +321,7 @@ def is_minimal_m_separator(
 
     nodeset = {x, y}.union(i)
 
-    anterior_nodes_G = _anterior(G_copy, nodeset)
+    anterior_nodes_G = _anterior(G_copy, nodeset, directed_edge_name, undirected_edge_name)
     G_copy.remove_nodes_from(set(G.nodes()) - anterior_nodes_G)
     aug_G_p = pywhy_nx.mixed_edge_moral_graph(
         G_copy,
@@ -414,7 +417,7 @@ def minimal_m_separator(
 
     nodeset = {x, y}.union(i)
 
-    anterior_nodes_G = _anterior(G_copy, nodeset)
+    anterior_nodes_G = _anterior(G_copy, nodeset, directed_edge_name, undirected_edge_name)
     G_copy.remove_nodes_from(set(G_copy.nodes()) - anterior_nodes_G)
     G_p = G_copy.copy()
     aug_G_p = pywhy_nx.mixed_edge_moral_graph(
